@@ -336,6 +336,8 @@ class Ctx:
         self.signs = []          # Poly >= 0 facts (for the linear prover)
         self.inputs = {}         # name -> z3 const
         self.div_mode = div_mode
+        self.abs_mode = 'fork'   # or 'atom': |x| as a defined atom (no fork)
+        self.cdiv_mode = 'expand'  # or 'atom': 1/w as defined atoms
         self.assumptions = []    # textual, for evidence
         self.assumed = []        # z3 terms assumed (for smt2 export)
         self.obligations = []    # dicts
@@ -653,6 +655,44 @@ class Ctx:
         if rc is not None:
             return s.scale(rc)
         return s * self.sqrt(Poly.const(content))
+
+    def cinverse(self, w):
+        """1/w for a symbolic complex w != 0 as a pair of defined atoms
+        (a, b): w (a + ib) = 1.  Keeps polynomials small where expanding
+        conj(w)/|w|^2 would explode."""
+        k = ('cinv', w.re.p.key(), w.im.p.key())
+        v = self.memo.get(k)
+        if v is None:
+            n = next(self.fresh)
+            a = self.new_atom('cinv%d_re' % n, 'cinv', w)
+            b = self.new_atom('cinv%d_im' % n, 'cinv', w)
+            A, B = SReal(Poly.atom(a.id)), SReal(Poly.atom(b.id))
+            e1 = w.re * A - w.im * B - 1
+            e2 = w.re * B + w.im * A
+            self.hyps.append(('cinv:re', e1.p))
+            self.hyps.append(('cinv:im', e2.p))
+            self.add(z3.And(self.poly_z3(e1.p) == 0, self.poly_z3(e2.p) == 0))
+            self.notes.append('complex divisor assumed non-zero')
+            v = SComplex(A, B)
+            self.memo[k] = v
+        return v
+
+    def abs_atom(self, p):
+        """|p| as a defined atom a: a >= 0, a^2 = p^2, a = +-p by sign"""
+        m0, c0 = p.leading()
+        q = p.scale(1 / c0)          # |p| = |c0| * |q|
+        k = ('abs', q.key())
+        a = self.memo.get(k)
+        if a is None:
+            a = self.new_atom('abs%d' % next(self.fresh), 'abs', q)
+            a.nonneg = True
+            self.memo[k] = a
+            self.sqrule[a.id] = q * q
+            z = self.poly_z3(q)
+            self.add(z3.And(a.z >= 0, z3.Implies(z >= 0, a.z == z),
+                            z3.Implies(z <= 0, a.z == -z)))
+            self.signs.append(Poly.atom(a.id))
+        return Poly.atom(a.id).scale(abs(c0))
 
     def ensure_nonneg(self, p, what='sqrt argument'):
         if p.is_const():
@@ -1040,6 +1080,8 @@ class SReal:
         if single is not None and all(
                 (c.atoms[a].nonneg or e % 2 == 0) for a, e in single[1]):
             return self if single[0] > 0 else -self
+        if c.abs_mode == 'atom':
+            return SReal(c.abs_atom(self.p))
         if self >= 0:
             return self
         return -self
@@ -1219,6 +1261,9 @@ class SComplex:
             return NotImplemented
         if o.im.p.is_zero():
             return SComplex(self.re / o.re, self.im / o.re)
+        if _CUR is not None and _CUR.cdiv_mode == 'atom' and not (
+                o.re.is_const() and o.im.is_const()):
+            return self * _CUR.cinverse(o)
         d = o.abs2()
         n = self * o.conjugate()
         return SComplex(n.re / d, n.im / d)
